@@ -929,6 +929,7 @@ class Server:
             response=lambda *args: response_queue.put_nowait(args),
             acquired=False,
             restart_offset=0,
+            transfer_offset=0,
             _dispatcher=get_current_task(),
         )
         connection.path_io = self.path_io_factory(
@@ -970,8 +971,11 @@ class Server:
                             pending.add(
                                 asyncio.create_task(f(connection, rest)),
                             )
-                            if cmd not in ("retr", "stor", "appe"):
-                                connection.restart_offset = 0
+                            # restart offset applies to the immediately following
+                            # command only, and only if that is a transfer
+                            if cmd in ("retr", "stor", "appe"):
+                                connection.transfer_offset = connection.restart_offset
+                            connection.restart_offset = 0
                         else:
                             message = f"{cmd!r} not implemented"
                             connection.response("502", message)
@@ -1344,9 +1348,7 @@ class Server:
             return True
 
         real_path, virtual_path = self.get_paths(connection, rest)
-        # restart offset applies to this transfer only
-        restart_offset = connection.restart_offset
-        connection.restart_offset = 0
+        restart_offset = connection.transfer_offset
         real_parent, _ = self.get_paths(connection, virtual_path.parent)
         if await connection.path_io.is_dir(real_parent):
             coro = stor_worker(self, connection, rest)
@@ -1388,9 +1390,7 @@ class Server:
             return True
 
         real_path, virtual_path = self.get_paths(connection, rest)
-        # restart offset applies to this transfer only
-        restart_offset = connection.restart_offset
-        connection.restart_offset = 0
+        restart_offset = connection.transfer_offset
         coro = retr_worker(self, connection, rest)
         task = asyncio.create_task(coro)
         connection.extra_workers.add(task)
